@@ -290,32 +290,31 @@ Qed.
 (* ========================================================================================= *)
 (* Quaternion(dcm=M): whatever comes back is a unit quaternion, only ValueError is raised    *)
 (* ========================================================================================= *)
-(* walk the generated decision tree without expanding its lets: every let becomes a local definition, every
-   decision a case split; `leaf` closes  <leaf outcome> = <outcome> -> <claim> *)
+(* walk a generated decision tree without expanding its lets: every let becomes a local definition, every
+   decision a case split (through if_elim, which is much cheaper than destruct on these large terms);
+   `leaf` closes  <leaf outcome> = o -> <claim about o> *)
+Lemma if_elim {A} {P Q : Prop} (c : {P}+{Q}) (a b : A) (G : A -> Prop) :
+  (P -> G a) -> (Q -> G b) -> G (if c then a else b).
+Proof. destruct c; auto. Qed.
 Ltac walk leaf :=
   lazymatch goal with
   | |- (let x := ?v in @?b x) = ?r -> ?G =>
       let y := fresh "t" in pose (y := v); change (b y = r -> G); cbv beta; walk leaf
-  | |- (if left _ then ?a else _) = ?r -> ?G => change (a = r -> G); walk leaf
-  | |- (if right _ then _ else ?a) = ?r -> ?G => change (a = r -> G); walk leaf
-  | |- (if ?c then _ else _) = _ -> _ => destruct c; walk leaf
+  | |- (if ?c then ?a else ?b) = ?r -> ?G =>
+      refine (if_elim c a b (fun o => o = r -> G) _ _); intro; walk leaf
   | |- _ => leaf
   end.
 Ltac expose_leaf :=
   repeat match goal with |- context [?x * ?x] => is_var x; unfold x end;
   repeat match goal with |- context [_ / ?n] => is_var n; unfold n in * end.
-Ltac leaf_unit_w :=
-  let E := fresh "E" in
-  intros E; first [discriminate E | injection E as <-;
-  cbv [unit4l qnorm2 e nth length]; split; [reflexivity|]; expose_leaf;
-  first [ apply div4_unit; lra | apply div3_unit; lra ]].
-
-Lemma Q_dcm_returns_unit m00 m01 m02 m10 m11 m12 m20 m21 m22 l :
-  C11_Q_dcm_R m00 m01 m02 m10 m11 m12 m20 m21 m22 = Val l -> unit4l l.
-Proof. unfold C11_Q_dcm_R. walk leaf_unit_w. Qed.
-Lemma Q_dcm_raises_VE m00 m01 m02 m10 m11 m12 m20 m21 m22 ex :
-  C11_Q_dcm_R m00 m01 m02 m10 m11 m12 m20 m21 m22 = Raise ex -> ex = ValueError.
-Proof. unfold C11_Q_dcm_R. walk only_VE. Qed.
+(* what every quaternion constructor guarantees about its outcome *)
+Definition unit_or_VE (o : outcome R) : Prop :=
+  match o with Val l => unit4l l | Raise ex => ex = ValueError end.
+Ltac leaf_post :=
+  let E := fresh "E" in intros E; rewrite <- E; cbv [unit_or_VE];
+  first [ reflexivity
+        | cbv [unit4l qnorm2 e nth length]; split; [reflexivity|]; expose_leaf;
+          first [ apply div4_unit; lra | apply div3_unit; lra ] ].
 
 (* non-vacuity *)
 Example norm_nonvacuous : nz4 1 2 3 4 /\ nz3 1 2 3 /\ 0 <= 1/3 <= 1 /\
